@@ -26,11 +26,13 @@ fn main() {
     let seed: u64 = std::env::args().nth(1).and_then(|s| s.parse().ok()).unwrap_or(1);
     let lex = "京都,1,1,5,kyoto\n東京,1,2,7,tokyo\n東京都,2,1,9,tokyoto\n都,2,2,3,to\nab,1,1,4,ab\na,2,1,6,a\n";
     let matrix = "3 3\n0 1 1\n0 2 2\n1 0 1\n1 1 -3\n1 2 4\n2 0 2\n2 1 5\n2 2 -1\n";
-    let chardef = "DEFAULT 0 1 0\nSPACE 0 1 0\nALPHA 1 1 2\n0x0020 SPACE\n0x0061..0x007A ALPHA\n";
-    let unk = "DEFAULT,1,1,100,unk\nSPACE,2,2,50,sp\nALPHA,1,2,20,alpha\n";
+    // ALPHA (U+0061..) and KANA (U+3061..) code points share their low byte: a cache or table keyed
+    // by a truncated code point, shared between workers, would mix their categories up
+    let chardef = "DEFAULT 0 1 0\nSPACE 0 1 0\nALPHA 1 1 2\nKANA 0 1 3\n0x0020 SPACE\n0x0061..0x007A ALPHA\n0x3041..0x3096 KANA\n";
+    let unk = "DEFAULT,1,1,100,unk\nSPACE,2,2,50,sp\nALPHA,1,2,20,alpha\nKANA,2,1,30,kana\n";
     let dict = SystemDictionaryBuilder::from_readers(lex.as_bytes(), matrix.as_bytes(), chardef.as_bytes(), unk.as_bytes()).unwrap();
     let tokenizer = Tokenizer::new(dict).ignore_space(seed % 2 == 0).unwrap().max_grouping_len((seed % 3) as usize);
-    let pool = ["京都東京都", "", "ab a abc", "東京都京都", "  ", "a", "都都都", "abab東京", "x京", "東"];
+    let pool = ["京都東京都", "", "ab a abc", "ちぢっabc", "  ", "a", "都都都", "abab東京", "っちぢ京", "abcちぢっ"];
     // expected results: a fresh worker per sentence, single-threaded
     let expected: Vec<Toks> = pool
         .iter()
@@ -42,8 +44,23 @@ fn main() {
         })
         .collect();
     let mut x = seed;
+    let latin = [2usize, 5, 7, 2, 9];
+    let kana = [3usize, 8, 9, 3, 8];
     let programs: Vec<Vec<usize>> = (0..3)
-        .map(|_| (0..5).map(|_| (splitmix(&mut x) % pool.len() as u64) as usize).collect())
+        .map(|t| {
+            (0..5)
+                .map(|k| {
+                    let r = splitmix(&mut x);
+                    if r % 4 == 0 {
+                        (r >> 8) as usize % pool.len()
+                    } else if t % 2 == 0 {
+                        latin[(k + (r >> 8) as usize) % 5]
+                    } else {
+                        kana[(k + (r >> 8) as usize) % 5]
+                    }
+                })
+                .collect()
+        })
         .collect();
     let bad = std::sync::atomic::AtomicBool::new(false);
     std::thread::scope(|sc| {
